@@ -32,6 +32,12 @@ Txs(out, c) == SelectSeq(out, LAMBDA e : e.ev = "tx" /\ e.c = c)
 HasEv(out, P(_)) == \E i \in 1..Len(out) : P(out[i])
 NodeAuth == {MCfg.apps[a].id : a \in {x \in MApps : MCfg.apps[x].auth}}
 NodeAcct == {MCfg.apps[a].id : a \in {x \in MApps : MCfg.apps[x].acct}}
+\* applications registered while the node runs (act "addapp"): monitors that speak about applications track the set registered so far
+IsLate(a) == "late" \in DOMAIN MCfg.apps[a] /\ MCfg.apps[a].late
+RegApps(reg) == {a \in MApps : ~IsLate(a) \/ a \in reg}
+RegNext(reg, st) == IF st.act.a = "addapp" THEN reg \cup {st.act.app} ELSE reg
+NodeAuthR(reg) == {MCfg.apps[a].id : a \in {x \in RegApps(reg) : MCfg.apps[x].auth}}
+NodeAcctR(reg) == {MCfg.apps[a].id : a \in {x \in RegApps(reg) : MCfg.apps[x].acct}}
 IsFeed(st) == st.act.a = "feed"
 \* bytes that do not (yet) form a message: a fragment of a message, or undecodable bytes
 IsRx(st) == st.act.a = "rx"
